@@ -136,8 +136,11 @@ func (P *Program) resolve(v ssa.Value, deep bool) []ssa.Value {
 // (no such call site, too many, or p belongs to a closure / callback).
 func (P *Program) paramArgs(p *ssa.Parameter) []ssa.Value {
 	fn := p.Parent()
-	if fn == nil || fn.Parent() != nil {
+	if fn == nil {
 		return nil
+	}
+	if fn.Parent() != nil && len(P.Callers(fn)) == 0 {
+		return nil // callback / range-over-func body: parameters come from the library
 	}
 	idx := -1
 	for i, q := range fn.Params {
@@ -815,7 +818,7 @@ func (P *Program) ResolveThroughCalls(v ssa.Value, depth int) []ssa.Value {
 		call, ok := r.(*ssa.Call)
 		var callee *ssa.Function
 		if ok {
-			callee = call.Call.StaticCallee()
+			callee = P.Callee(&call.Call)
 		}
 		if callee == nil || depth <= 0 || !P.IsProductFunc(callee) || len(callee.Blocks) == 0 {
 			out = append(out, r)
@@ -853,7 +856,7 @@ func (P *Program) isAnchor(fn *ssa.Function) bool {
 // helperReturns: the values result #idx of the called helper may be (nil if the callee is not a transparent helper).
 func (P *Program) helperReturns(call *ssa.Call, idx int) []ssa.Value {
 	callee := call.Call.StaticCallee()
-	if callee == nil || !P.IsProductFunc(callee) || len(callee.Blocks) == 0 || P.isAnchor(callee) || callee.Parent() != nil {
+	if callee == nil || !P.IsProductFunc(callee) || len(callee.Blocks) == 0 || P.isAnchor(callee) {
 		return nil
 	}
 	res := callee.Signature.Results()
